@@ -79,6 +79,7 @@ def apply(text, rules, what, log):
     rules = [r for r in rules if r != 'KEEPPRIV']
     text, n = r0_crate_paths(text)
     text, n = r0_std_net(text)
+    text, n = r0_static_str(text)
     text, n = r0_duration_const(text)
     if n:
         log['rewrites'].append({'rule': 'R0c', 'item': what, 'count': n, 'note': 'Duration const as exec const with value ensures'})
@@ -232,6 +233,16 @@ def r0_std_net(text):
         n += 1
     out.append(text[last:])
     return ''.join(out), n
+
+
+def r0_static_str(text):
+    """`const X: &str = ..` -> `const X: &'static str = ..` (the elided lifetime of a const is 'static; Verus wants it written)"""
+    n = 0
+    mo = re.match(r"(\s*(?:pub\s+)?const\s+[A-Za-z_][A-Za-z0-9_]*\s*:\s*)&\s*str(\s*=)", text)
+    if mo:
+        text = mo.group(1) + "&'static str" + mo.group(2) + text[mo.end():]
+        n = 1
+    return text, n
 
 
 def r0_crate_paths(text):
